@@ -6,15 +6,70 @@ package c11
 // described here is the image the model derives: check_case of CCrash).
 
 type FsOp struct {
-	Kind string `json:"kind"` // create|write|fsync|close|rename
-	A    string `json:"a"`
-	B    string `json:"b,omitempty"`
-	Data []byte `json:"data,omitempty"`
+	Kind  string `json:"kind"` // create|open|write|fsync|close|rename
+	A     string `json:"a"`
+	B     string `json:"b,omitempty"`
+	Data  []byte `json:"data,omitempty"`
+	Flags string `json:"flags,omitempty"` // open flags as strace printed them (create/open)
+}
+
+type wr struct {
+	off  int
+	data []byte
 }
 
 type inode struct {
 	durable  []byte
-	volatile []byte // concatenation of the writes since the last fsync
+	volatile []wr // writes (offset, bytes) since the last fsync
+	pos      int  // write position (one writer per file)
+}
+
+func overwrite(d []byte, off int, b []byte) []byte {
+	if off > len(d) {
+		off = len(d)
+	}
+	out := append([]byte(nil), d[:off]...)
+	out = append(out, b...)
+	if off+len(b) < len(d) {
+		out = append(out, d[off+len(b):]...)
+	}
+	return out
+}
+
+func (f *inode) bytes(keep int) []byte { // durable overwritten by the first keep bytes of the write sequence
+	d := f.durable
+	for _, w := range f.volatile {
+		if keep < len(w.data) {
+			return overwrite(d, w.off, w.data[:keep])
+		}
+		d = overwrite(d, w.off, w.data)
+		keep -= len(w.data)
+	}
+	return d
+}
+
+func (f *inode) volLen() int {
+	n := 0
+	for _, w := range f.volatile {
+		n += len(w.data)
+	}
+	return n
+}
+
+func (s *fsState) curDir() map[string]int {
+	d := map[string]int{}
+	for k, v := range s.ddir {
+		d[k] = v
+	}
+	for _, o := range s.log {
+		if !o.rename {
+			d[o.a] = o.ino
+		} else if i, ok := d[o.a]; ok {
+			delete(d, o.a)
+			d[o.b] = i
+		}
+	}
+	return d
 }
 
 type dirOp struct {
@@ -40,20 +95,32 @@ func newFs(target string, old []byte, oldPresent bool) *fsState {
 }
 
 func (s *fsState) step(o FsOp) {
-	switch o.Kind {
-	case "create":
+	create := func() {
 		i := len(s.files)
 		s.files = append(s.files, &inode{})
 		s.log = append(s.log, dirOp{a: o.A, ino: i})
 		s.open[o.A] = i
+	}
+	switch o.Kind {
+	case "create":
+		create()
+	case "open":
+		if i, ok := s.curDir()[o.A]; ok {
+			s.files[i].pos = 0
+			s.open[o.A] = i
+		} else {
+			create()
+		}
 	case "write":
 		if i, ok := s.open[o.A]; ok {
-			s.files[i].volatile = append(s.files[i].volatile, o.Data...)
+			f := s.files[i]
+			f.volatile = append(f.volatile, wr{f.pos, o.Data})
+			f.pos += len(o.Data)
 		}
 	case "fsync":
 		if i, ok := s.open[o.A]; ok {
 			f := s.files[i]
-			f.durable = append(f.durable, f.volatile...)
+			f.durable = f.bytes(f.volLen())
 			f.volatile = nil
 		}
 	case "close":
@@ -92,12 +159,7 @@ func crashImage(target string, old []byte, oldPresent bool, ops []FsOp, p Point)
 	}
 	img := map[string][]byte{}
 	for name, i := range d {
-		f := s.files[i]
-		keep := p.Keep[i]
-		if keep > len(f.volatile) {
-			keep = len(f.volatile)
-		}
-		img[name] = append(append([]byte(nil), f.durable...), f.volatile[:keep]...)
+		img[name] = append([]byte(nil), s.files[i].bytes(p.Keep[i])...)
 	}
 	return img
 }
@@ -110,8 +172,8 @@ func volatileAt(target string, old []byte, oldPresent bool, ops []FsOp, k int) (
 	}
 	vol = map[int]int{}
 	for i, f := range s.files {
-		if len(f.volatile) > 0 {
-			vol[i] = len(f.volatile)
+		if f.volLen() > 0 {
+			vol[i] = f.volLen()
 		}
 	}
 	return vol, len(s.log)
